@@ -40,11 +40,23 @@ def main():
          "green/builder.rs CHILDREN_CACHE_THRESHOLD")
 
     token = src("cstree/src/syntax/token.rs")
-    m = re.search(r"if\s+text\.len\(\)\s*<\s*(\d+)\s*\{", token)
+    m = re.search(r"if\s+\w+\.len\(\)\s*<\s*(\d+)\s*\{", token)
     fact("abbrev_len", "N", m.group(1) if m else None, "syntax/token.rs write_debug: texts shorter than this are printed in full")
-    m = re.search(r"for\s+idx\s+in\s+(\d+)\.\.(\d+)\s*\{\s*if\s+text\.is_char_boundary\(idx\)", token)
-    fact("abbrev_lo", "N", m.group(1) if m else None, "syntax/token.rs write_debug: first candidate cut position")
-    fact("abbrev_hi", "N", m.group(2) if m else None, "syntax/token.rs write_debug: end (exclusive) of the candidate cut positions")
+    # the candidate cut positions: `for idx in A..B { if text.is_char_boundary(idx) ...` or `(A..B).find(|..| text.is_char_boundary(..))`,
+    # where A and B are integer literals, constants of the file, or constant + literal
+    consts = dict(re.findall(r"const\s+(\w+)\s*:\s*usize\s*=\s*(\d+)\s*;", token))
+    def bound(e):
+        e = e.strip()
+        mm = re.fullmatch(r"(\w+)(?:\s*\+\s*(\d+))?", e)
+        if not mm:
+            return None
+        base = mm.group(1)
+        v = int(base) if base.isdigit() else (int(consts[base]) if base in consts else None)
+        return None if v is None else str(v + int(mm.group(2) or 0))
+    m = (re.search(r"for\s+\w+\s+in\s+([\w +]+?)\.\.([\w +]+?)\s*\{\s*if\s+\w+\.is_char_boundary\(", token) or
+         re.search(r"\(\s*([\w +]+?)\.\.([\w +]+?)\s*\)\s*\.find\(\s*\|[^|]*\|\s*\w+\.is_char_boundary\(", token))
+    fact("abbrev_lo", "N", bound(m.group(1)) if m else None, "syntax/token.rs write_debug: first candidate cut position")
+    fact("abbrev_hi", "N", bound(m.group(2)) if m else None, "syntax/token.rs write_debug: end (exclusive) of the candidate cut positions")
 
     serde = src("cstree/src/serde_impls.rs")
     ty = None
